@@ -32,6 +32,10 @@ OBS_OPS = {
 }
 
 
+def _same(a, b):
+    return a == b or (a != a and b != b)
+
+
 def _point_array(order, point):
     import numpy as np
 
@@ -75,7 +79,7 @@ class Executor:
         o = copy.deepcopy(obs_op)
         o[1] = 0
         if o[0] == "solve":
-            o[2] = {k: v for k, v in o[2].items() if k not in ("fault", "peer")}
+            o[2] = {k: v for k, v in o[2].items() if k not in ("fault", "peer", "peers", "r2")}
             if relax:
                 o[2]["strict"] = False
         if o[0] == "call":
@@ -98,7 +102,7 @@ class Executor:
                 rec["reclimit"] = reclimit
             plan = None
             if inner[0] == "solve":
-                plan = {k: inner[2][k] for k in ("fault", "peer") if k in inner[2]} or None
+                plan = {k: inner[2][k] for k in ("fault", "peer", "peers") if k in inner[2]} or None
             w.begin_op(plan)
             try:
                 if reclimit is not None:
@@ -295,6 +299,8 @@ class Executor:
         rec["ref"] = self.ref_ops(op[1], op)
         if k in ("call", "evaluate") and sh["spec"].get("params"):
             rec["ref2"] = self.ref_ops(op[1], op, as_constants=True)
+        if k == "solve" and op[2].get("r2"):
+            rec["ref2"] = self.ref_ops(op[1], op, as_constants=True)
         # abstract cache state, for reach measurement only (never used by an oracle)
         rec["abs"] = [
             getattr(P, "_variables", None) is not None,
@@ -368,8 +374,12 @@ class Executor:
                         mag = abs(float(c.evaluate(vals)))
                     allowed = atol + 1e-5 * max(1.0, mag)
                     if not (v <= allowed):
+                        if v != v:
+                            v = float("inf")
                         if worst is None or v > worst[0]:
-                            worst = [fl(v), cname, j, fl(allowed)]
+                            worst = [v, cname, j, fl(allowed)]
+            if worst is not None:
+                worst[0] = fl(worst[0])
             out["con_viol"] = worst
         except Exception as e:  # noqa: BLE001
             out["con_viol_exc"] = type(e).__name__
@@ -380,13 +390,15 @@ class Executor:
                 continue
             lb, ub, _ = attrs[n]
             if lb is not None and not (x >= lb - atol * (1 + abs(lb))):
-                d = lb - x
+                d = lb - x if x == x else float("inf")
                 if bworst is None or d > bworst[0]:
-                    bworst = [fl(d), n, "lb", fl(lb)]
+                    bworst = [d, n, "lb", fl(lb)]
             if ub is not None and not (x <= ub + atol * (1 + abs(ub))):
-                d = x - ub
+                d = x - ub if x == x else float("inf")
                 if bworst is None or d > bworst[0]:
-                    bworst = [fl(d), n, "ub", fl(ub)]
+                    bworst = [d, n, "ub", fl(ub)]
+        if bworst is not None:
+            bworst[0] = fl(bworst[0])
         out["bound_viol"] = bworst
         if sol.objective_value is not None and sh["objective"] is not None and want <= set(vals):
             try:
@@ -406,14 +418,14 @@ class Executor:
             try:
                 got = sol[h]
                 if d["kind"] == "scalar":
-                    ok = float(got) == vals[d["name"]]
+                    ok = _same(float(got), vals[d["name"]])
                 elif d["kind"] == "vector":
                     ok = np.shape(got) == (d["n"],) and all(
-                        float(got[i]) == vals[f"{d['name']}[{i}]"] for i in range(d["n"])
+                        _same(float(got[i]), vals[f"{d['name']}[{i}]"]) for i in range(d["n"])
                     )
                 else:
                     ok = np.shape(got) == (d["rows"], d["cols"]) and all(
-                        float(got[i, j]) == vals[S.mel_name(d, i, j)]
+                        _same(float(got[i, j]), vals[S.mel_name(d, i, j)])
                         for i in range(d["rows"])
                         for j in range(d["cols"])
                     )
